@@ -774,6 +774,22 @@ func runC17(c *Ctx) {
 				bin("*", call("concatenate", par(dec("1")), par(dec("2"))), dec("3")), call("word", &lx{kind: "str", text: "w1 w2 w3 w4 w5 w6 w7 w8 w9 w10 w11 w12 w13 w14"}, shaped()), neg(shaped()))
 		}
 	}
+	// typed calls in date arithmetic whose string arguments contain a (legacy: doubled) quote - the type inference reads text
+	{
+		str := func(t string) *lx { return &lx{kind: "str", text: t} }
+		explicit = append(explicit,
+			bin("+", call("datevalue", call("substitute", str(`2020-03-15`), str(`"`), str(""))), dec("7")),
+			bin("-", call("datevalue", call("substitute", str(`2020-03-15`), str(`"`), str(""))), dec("2")),
+			bin("+", call("today"), call("timevalue", call("substitute", str(`10:30`), str(`"`), str("")))),
+			bin("+", call("now"), call("timevalue", call("substitute", str(`10:30`), str(`a"b"c"`), str("")))),
+			bin("+", call("datevalue", call("substitute", str(`2020-03-15"`), str(`"`), str(""))), dec("7")),
+			bin("-", call("datevalue", call("substitute", str(`2020-03-15"`), str(`"`), str(""))), dec("2")),
+			bin("+", call("today"), call("timevalue", call("substitute", str(`10:30"`), str(`"`), str("")))),
+			bin("+", call("now"), call("timevalue", call("substitute", str(`"10:30`), str(`"`), str("")))),
+			bin("-", call("date", dec("2020"), dec("3"), call("len", str(`ab"cd"ef`))), dec("1")),
+			bin("+", call("abs", call("len", str(`a"b`))), dec("1")),
+			bin("+", call("date", dec("2020"), dec("3"), call("len", str(`a)b"(c`))), dec("3")))
+	}
 	// literal positions in every written form (leading zeros, eight and nine, negative), over texts long enough to tell them apart
 	{
 		str := func(t string) *lx { return &lx{kind: "str", text: t} }
@@ -785,6 +801,47 @@ func runC17(c *Ctx) {
 		}
 		for _, lit := range []string{"1", "2", "10"} {
 			explicit = append(explicit, call("word", str(words), &lx{kind: "neg", kids: []*lx{dec(lit)}}), call("field", str(fields), &lx{kind: "neg", kids: []*lx{dec(lit)}}, str(",")))
+		}
+	}
+	// the explicit trees against the whole-visitor model too
+	for _, e := range explicit {
+		var form []string
+		if e.kind == "str" || !e.prefixFull(&form) {
+			continue
+		}
+		legacy := "@(" + e.legacy() + ")"
+		migrated, err := expressions.MigrateTemplate(legacy, nil)
+		exp := "err"
+		if err == nil && strings.HasPrefix(migrated, "@(") && strings.HasSuffix(migrated, ")") {
+			exp = "ok " + hx(strings.ReplaceAll(migrated[2:len(migrated)-1], "NULL", "null"))
+		} else if err == nil && strings.HasPrefix(migrated, "@") && len(migrated) > 1 {
+			exp = "ok " + hx(migrated[1:])
+		}
+		c.Model("legmigf", "legmigf "+strings.Join(form, ","), exp, map[string]any{"legacy": legacy, "migrated": migrated})
+	}
+	// M-rawdates: a reference migrates under each setting of RawDates to what that setting prescribes, whatever was migrated
+	// before in the same process (a flow migrates date tests with raw dates and messages without)
+	for round := 0; round < 2; round++ {
+		for _, ref := range []string{"date.today", "date.tomorrow", "date.yesterday", "date.now", "date", "contact.name", "flow.x", "step.value"} {
+			order := []bool{true, false}
+			if round == 1 {
+				order = []bool{false, true}
+			}
+			for _, raw := range order {
+				for _, tpl := range []string{"@" + ref, "Today is @" + ref + " ok", "@(" + ref + ")"} {
+					got, err := expressions.MigrateTemplate(tpl, &expressions.MigrateOptions{RawDates: raw})
+					c.Count("check:M-rawdates")
+					if err != nil {
+						continue
+					}
+					want := expressions.MigrateContextReference(ref, raw)
+					c.Eval(fmt.Sprintf("rawdates|%s|%v", ref, raw))
+					if !strings.Contains(got, want) || (!raw && strings.HasPrefix(ref, "date.t") && !strings.Contains(got, "format_date(")) || (raw && strings.Contains(got, "format_date(")) {
+						c.Fail("monitor", "M-rawdates", "reference-ignores-raw-dates", "a date reference is not migrated as the RawDates setting of this call prescribes",
+							map[string]any{"template": tpl, "raw_dates": raw, "migrated": got, "reference_alone_migrates_to": want})
+					}
+				}
+			}
 		}
 	}
 	n := c.N(5000, 250000)
